@@ -345,15 +345,149 @@ theorem I2V_nonvariadic_pointwise (objs : List Boxed) (types : List Ty) (vs : Li
     split at h
     · simp at h
     · intro j hj
-      have := go_pointwise K types objs 0 vs (by omega) h j hj
-      simpa using this
+      obtain ⟨a, v, h1, h2, h3⟩ := go_ok_pointwise K types false objs 0 vs h j hj
+      have hjt : j < types.length := by omega
+      simp only [Nat.zero_add, I2V.convAt, typeAt_nonvariadic types j hjt] at h3
+      exact ⟨types[j], a, v, List.getElem?_eq_getElem hjt, h1, h2, h3⟩
   · rw [I2V_arity_nonvariadic objs types hl] at h; simp at h
 
 example : ∃ vs, I2V K [some (tInt64, .int 5), none] [tInt64, tError] false = .ok vs ∧ vs.length = 2 :=
   ⟨[⟨tInt64, .int, true, .int 5⟩, ⟨tError, .iface, true, .ifaceNil⟩], by
     have hm : Kind.iface ∈ K.nil := by decide
-    simp [I2V, I2V.go, toValue, hm, zeroRV, tError, tInt64, Ty.kind, Prim.kind, Ty.isDirect,
+    simp [I2V, I2V.go, I2V.convAt, I2V.typeAt, toValue, hm, zeroRV, tError, tInt64, Ty.kind, Prim.kind, Ty.isDirect,
       zeroVal, isIContextPtr, Ty.size, Prim.size]⟩
+
+/-! ### variadic lists (`When.Eval(args...)` on a variadic function: `types = pre ++ [[]elem]`) -/
+
+/-- the declared type the j-th supplied value of a variadic call is converted at -/
+def variadicTypeAt (pre : List Ty) (elem : Ty) (j : Nat) : Ty := if h : j < pre.length then pre[j] else elem
+
+/-- **variadic, success**: the first `n-1` values convert at their own declared types and every remaining value
+    at the element type of the last (slice) type; as many results as supplied values; at least `n-1` values -/
+theorem I2V_variadic_pointwise (objs : List Boxed) (pre : List Ty) (last elem : Ty) (vs : List RV)
+    (hlast : last.elem? = .ok elem) (h : I2V K objs (pre ++ [last]) true = .ok vs) :
+    pre.length ≤ objs.length ∧ vs.length = objs.length ∧
+    ∀ j, j < objs.length → ∃ a v, objs[j]? = some a ∧ vs[j]? = some v ∧ toValue K a (variadicTypeAt pre elem j) = .ok v := by
+  have hlen := I2V_keeps_count objs (pre ++ [last]) true vs h
+  simp only [I2V] at h
+  split at h
+  · simp at h
+  · rename_i hc
+    refine ⟨by simp at hc; omega, hlen, ?_⟩
+    intro j hj
+    obtain ⟨a, v, h1, h2, h3⟩ := go_ok_pointwise K (pre ++ [last]) true objs 0 vs h j hj
+    refine ⟨a, v, h1, h2, ?_⟩
+    simp only [Nat.zero_add, I2V.convAt] at h3
+    by_cases hjp : j < pre.length
+    · rw [typeAt_variadic_fixed pre last j hjp] at h3
+      simpa [variadicTypeAt, hjp] using h3
+    · rw [typeAt_variadic_tail pre last j (by omega), hlast] at h3
+      simpa [variadicTypeAt, hjp] using h3
+
+example : (Ty.slice tInt64).elem? = .ok tInt64 := rfl
+
+/-- **variadic, arity**: fewer than `n-1` values are refused before any conversion -/
+theorem I2V_variadic_too_few (objs : List Boxed) (pre : List Ty) (last : Ty) (h : objs.length < pre.length) :
+    I2V K objs (pre ++ [last]) true = .error .errArity := by
+  apply I2V_arity_variadic
+  simp; omega
+
+/-- **variadic, failure = first failing position**: if the conversion fails with `e`, some position `j` fails with
+    exactly `e` at its own type (fixed part) / at the element type (tail) and every earlier position converted -/
+theorem I2V_variadic_error_is_first_failure (objs : List Boxed) (pre : List Ty) (last elem : Ty) (e : Fail)
+    (hlast : last.elem? = .ok elem) (hn : pre.length ≤ objs.length) (h : I2V K objs (pre ++ [last]) true = .error e) :
+    ∃ j a, objs[j]? = some a ∧ toValue K a (variadicTypeAt pre elem j) = .error e ∧
+      ∀ k, k < j → ∃ c v, objs[k]? = some c ∧ toValue K c (variadicTypeAt pre elem k) = .ok v := by
+  have conv : ∀ j a, I2V.convAt K (pre ++ [last]) true j a = toValue K a (variadicTypeAt pre elem j) := by
+    intro j a
+    simp only [I2V.convAt]
+    by_cases hjp : j < pre.length
+    · rw [typeAt_variadic_fixed pre last j hjp]; simp [variadicTypeAt, hjp]
+    · rw [typeAt_variadic_tail pre last j (by omega), hlast]; simp [variadicTypeAt, hjp]
+  simp only [I2V] at h
+  split at h
+  · rename_i hc; simp at hc; omega
+  · obtain ⟨j, a, h1, h2, h3⟩ := go_error_first K (pre ++ [last]) true objs 0 e h
+    refine ⟨j, a, h1, ?_, ?_⟩
+    · simpa [conv] using h2
+    · intro k hk
+      obtain ⟨c, v, hc1, hc2⟩ := h3 k hk
+      exact ⟨c, v, hc1, by simpa [conv] using hc2⟩
+
+/-- and conversely the first failing position decides the outcome -/
+theorem I2V_variadic_first_failure_is_error (objs : List Boxed) (pre : List Ty) (last elem : Ty) (e : Fail) (j : Nat) (a : Boxed)
+    (hlast : last.elem? = .ok elem) (hn : pre.length ≤ objs.length)
+    (h1 : objs[j]? = some a) (h2 : toValue K a (variadicTypeAt pre elem j) = .error e)
+    (h3 : ∀ k, k < j → ∃ c v, objs[k]? = some c ∧ toValue K c (variadicTypeAt pre elem k) = .ok v) :
+    I2V K objs (pre ++ [last]) true = .error e := by
+  have conv : ∀ j a, I2V.convAt K (pre ++ [last]) true j a = toValue K a (variadicTypeAt pre elem j) := by
+    intro j a
+    simp only [I2V.convAt]
+    by_cases hjp : j < pre.length
+    · rw [typeAt_variadic_fixed pre last j hjp]; simp [variadicTypeAt, hjp]
+    · rw [typeAt_variadic_tail pre last j (by omega), hlast]; simp [variadicTypeAt, hjp]
+  have hc : ¬ objs.length < (pre ++ [last]).length - 1 := by simp; omega
+  simp only [I2V, Bool.true_and, Bool.not_true, Bool.false_and, Bool.or_false, decide_eq_true_eq, hc, if_false]
+  apply go_error_of_first K (pre ++ [last]) true objs 0 e j a h1
+  · simpa [conv] using h2
+  · intro k hk
+    obtain ⟨c, v, hc1, hc2⟩ := h3 k hk
+    exact ⟨c, v, hc1, by simpa [conv] using hc2⟩
+
+/-! the clause theorems at each position of the variadic tail -/
+
+/-- an untyped nil in the variadic tail becomes the typed zero value of the element type -/
+theorem variadic_tail_nil_is_typed_zero (objs : List Boxed) (pre : List Ty) (last elem : Ty) (vs : List RV) (j : Nat)
+    (hlast : last.elem? = .ok elem) (h : I2V K objs (pre ++ [last]) true = .ok vs)
+    (hj : pre.length ≤ j) (hnil : objs[j]? = some none) (hk : Nilable elem.kind) :
+    vs[j]? = some (zeroRV elem) := by
+  have hjl : j < objs.length := by
+    rcases Nat.lt_or_ge j objs.length with h' | h'
+    · exact h'
+    · rw [List.getElem?_eq_none h'] at hnil; simp at hnil
+  obtain ⟨a, v, h1, h2, h3⟩ := (I2V_variadic_pointwise objs pre last elem vs hlast h).2.2 j hjl
+  rw [hnil] at h1
+  simp only [Option.some.injEq] at h1
+  subst h1
+  have hnp : ¬ j < pre.length := by omega
+  simp only [variadicTypeAt, hnp, dite_false, (nil_is_typed_zero elem hk).1, Except.ok.injEq] at h3
+  rw [h2, h3]
+
+/-- an implementing value in the tail of an interface-typed variadic parameter is boxed with its dynamic type -/
+theorem variadic_tail_boxed (objs : List Boxed) (pre : List Ty) (last elem : Ty) (vs : List RV) (j : Nat) (t : Ty) (x : Val)
+    (hlast : last.elem? = .ok elem) (h : I2V K objs (pre ++ [last]) true = .ok vs)
+    (hj : pre.length ≤ j) (hv : objs[j]? = some (some (t, x))) (hk : elem.kind = .iface)
+    (himp : implements elem t = true) (hctx : isIContextPtr t = false) :
+    vs[j]? = some ⟨elem, .iface, true, .ifaceOf t x⟩ := by
+  have hjl : j < objs.length := by
+    rcases Nat.lt_or_ge j objs.length with h' | h'
+    · exact h'
+    · rw [List.getElem?_eq_none h'] at hv; simp at hv
+  obtain ⟨a, v, h1, h2, h3⟩ := (I2V_variadic_pointwise objs pre last elem vs hlast h).2.2 j hjl
+  rw [hv] at h1
+  simp only [Option.some.injEq] at h1
+  subst h1
+  have hnp : ¬ j < pre.length := by omega
+  simp only [variadicTypeAt, hnp, dite_false, (boxed_keeps_dynamic_type t x elem hk himp hctx).1, Except.ok.injEq] at h3
+  rw [h2, h3]
+
+/-- a value of another size anywhere in the variadic tail makes the whole conversion fail: nothing is reinterpreted -/
+theorem variadic_tail_size_mismatch_rejected (objs : List Boxed) (pre : List Ty) (last elem : Ty) (j : Nat) (t : Ty) (x : Val)
+    (hlast : last.elem? = .ok elem) (hj : pre.length ≤ j) (hv : objs[j]? = some (some (t, x)))
+    (hs : t.size ≠ elem.size) (hk : elem.kind ≠ .iface) :
+    ∀ vs, I2V K objs (pre ++ [last]) true ≠ .ok vs := by
+  intro vs h
+  have hjl : j < objs.length := by
+    rcases Nat.lt_or_ge j objs.length with h' | h'
+    · exact h'
+    · rw [List.getElem?_eq_none h'] at hv; simp at hv
+  obtain ⟨a, v, h1, _, h3⟩ := (I2V_variadic_pointwise objs pre last elem vs hlast h).2.2 j hjl
+  rw [hv] at h1
+  simp only [Option.some.injEq] at h1
+  subst h1
+  have hnp : ¬ j < pre.length := by omega
+  simp only [variadicTypeAt, hnp, dite_false] at h3
+  rcases (size_mismatch_rejected t x elem hs hk).1 with h' | h' <;> rw [h'] at h3 <;> simp at h3
 
 /-- fewer values than results never configure a stub -/
 theorem too_few_results_rejected (values : List Boxed) (outs : List Ty) (h : values.length < outs.length) :
@@ -408,5 +542,214 @@ theorem seq_zero_group_delivered (out : Ty) (h : Nilable out.kind) (rest : List 
 theorem seq_last_sticky (stored : List (List RV)) (outs : List Ty) (i : Nat) (h : stored.length - 1 ≤ i) :
     seqCall stored outs i = seqCall stored outs (stored.length - 1) := by
   simp [seqCall, Nat.min_eq_right h]
+
+/-! ## the boundary of the model: exactly when the answer is `unmodelled` -/
+
+/-- the supplied value kept under its own type -/
+def asIsRV (t : Ty) (x : Val) : RV := ⟨t, t.kind, !t.isDirect, x⟩
+/-- the supplied value relabelled with the declared type by `cast` (flag word of the original kept) -/
+def retypedRV (t : Ty) (x : Val) (out : Ty) : RV := ⟨out, t.kind, !t.isDirect, x⟩
+/-- the supplied value boxed into the declared interface type -/
+def boxedRV (t : Ty) (x : Val) (out : Ty) : RV := ⟨out, .iface, true, .ifaceOf t x⟩
+
+/-- **total classification of `toValue` on a non-nil value** (today's kind lists): every outcome is one of
+    reject (`errSize`), the deliberate IContext refusal, retyped, boxed, not-assignable panic, or kept as is —
+    with exactly this content. -/
+theorem toValue_classified (t : Ty) (x : Val) (out : Ty) :
+    toValue K (some (t, x)) out =
+      if t ≠ out ∧ (out.kind = .strct ∨ out.kind = .ptr) then
+        (if t.size ≠ out.size then .error .errSize
+         else if isIContextPtr out = true then .error .panicIContext
+         else .ok (retypedRV t x out))
+      else if isIContextPtr t = true then .error .panicIContext
+      else if out.kind = .iface then
+        (if implements out t = true then .ok (boxedRV t x out) else .error .panicAssign)
+      else if t.size ≠ out.size then .error .errSize
+      else .ok (asIsRV t x) := by
+  by_cases hc : t ≠ out ∧ (out.kind = .strct ∨ out.kind = .ptr)
+  · have hm : out.kind ∈ K.cast := (K_cast_mem out.kind).2 hc.2
+    have hni : out.kind ≠ .iface := by rcases hc.2 with h | h <;> rw [h] <;> decide
+    rw [if_pos hc]
+    by_cases hs : t.size = out.size
+    · simp [toValue, hc.1, hm, hs, Convert.cast, K_castNilSafe, hni, retypedRV]
+    · simp [toValue, hc.1, hm, hs]
+  · rw [if_neg hc]
+    have hc' : ¬ (t ≠ out ∧ out.kind ∈ K.cast) := by rw [K_cast_mem]; exact hc
+    simp only [toValue]
+    rw [if_neg (by simpa using hc')]
+    by_cases hi : isIContextPtr t = true
+    · simp [hi]
+    · by_cases hki : out.kind = .iface
+      · by_cases himp : implements out t = true
+        · simp [hi, hki, himp, boxedRV]
+        · simp [hi, hki, himp]
+      · by_cases hs : t.size = out.size
+        · simp [hi, hki, hs, asIsRV]
+        · simp [hi, hki, hs]
+
+/-- and on the untyped nil: typed zero value for the listed kinds, a panic (`Value.Type on zero Value`) otherwise -/
+theorem toValue_nil_classified (out : Ty) :
+    toValue K none out = if out.kind ∈ K.nil then .ok (zeroRV out) else .error .panicZeroValue := by
+  simp [toValue]
+
+/-- **the `unmodelled` predicate** on (supplied type, declared type): the value is accepted and retyped although its
+    kind or its representation class (pointer-shaped vs indirect) differs from the declared type's -/
+def CrossRep (t out : Ty) : Bool :=
+  decide (t ≠ out) && (out.kind == .strct || out.kind == .ptr) && decide (t.size = out.size) && !isIContextPtr out &&
+    (t.kind != out.kind || t.isDirect != out.isDirect)
+
+theorem retypedRV_wellFlagged (t : Ty) (x : Val) (out : Ty) :
+    (retypedRV t x out).wellFlagged = !(t.kind != out.kind || t.isDirect != out.isDirect) := by
+  simp only [retypedRV, RV.wellFlagged]
+  cases h1 : (t.kind == out.kind) <;> cases h2 : ((!t.isDirect) == !out.isDirect) <;>
+    cases h3 : t.isDirect <;> cases h4 : out.isDirect <;> simp_all
+
+theorem e2e_unmodelled_of_ok (r : Boxed) (out : Ty) (v : RV) (h : toValue K r out = .ok v) :
+    returnE2E K [r] [out] = .callUnmodelled ↔ v.wellFlagged = false := by
+  rw [returnE2E_single, h]
+  cases hw : v.wellFlagged
+  · simp [hw]
+  · cases hd : deliver1 v out <;> simp [hw, hd]
+
+theorem e2e_not_unmodelled_of_error (r : Boxed) (out : Ty) (e : Fail) (h : toValue K r out = .error e) :
+    returnE2E K [r] [out] ≠ .callUnmodelled := by
+  rw [returnE2E_single, h]; simp
+
+/-- **`Return(v)` + call answers `unmodelled` exactly on `CrossRep`** -/
+theorem unmodelled_iff (t : Ty) (x : Val) (out : Ty) :
+    returnE2E K [some (t, x)] [out] = .callUnmodelled ↔ CrossRep t out = true := by
+  have hcl := toValue_classified t x out
+  by_cases hc : t ≠ out ∧ (out.kind = .strct ∨ out.kind = .ptr)
+  · rw [if_pos hc] at hcl
+    have hor : (out.kind == Kind.strct || out.kind == Kind.ptr) = true := by
+      rcases hc.2 with h | h <;> simp [h]
+    by_cases hs : t.size = out.size
+    · rw [if_neg (by simpa using hs)] at hcl
+      by_cases hi : isIContextPtr out = true
+      · rw [if_pos hi] at hcl
+        have := e2e_not_unmodelled_of_error _ _ _ hcl
+        simp [this, CrossRep, hi]
+      · rw [if_neg hi] at hcl
+        rw [e2e_unmodelled_of_ok _ _ _ hcl, retypedRV_wellFlagged]
+        have hi' : isIContextPtr out = false := by simpa using hi
+        cases hx : (t.kind != out.kind || t.isDirect != out.isDirect) <;> simp [CrossRep, hc.1, hor, hs, hi', hx]
+    · rw [if_pos (by simpa using hs)] at hcl
+      have := e2e_not_unmodelled_of_error _ _ _ hcl
+      simp [this, CrossRep, hs]
+  · rw [if_neg hc] at hcl
+    have hcr : CrossRep t out = false := by
+      simp only [CrossRep]
+      by_cases h1 : t = out
+      · simp [h1]
+      · have h2 : ¬ (out.kind = .strct ∨ out.kind = .ptr) := fun h => hc ⟨h1, h⟩
+        have : (out.kind == Kind.strct || out.kind == Kind.ptr) = false := by
+          cases hk : out.kind <;> simp_all
+        simp [this]
+    rw [hcr]
+    simp only [Bool.false_eq_true, iff_false]
+    by_cases hi : isIContextPtr t = true
+    · rw [if_pos hi] at hcl; exact e2e_not_unmodelled_of_error _ _ _ hcl
+    · rw [if_neg hi] at hcl
+      by_cases hki : out.kind = .iface
+      · rw [if_pos hki] at hcl
+        by_cases himp : implements out t = true
+        · rw [if_pos himp] at hcl
+          rw [e2e_unmodelled_of_ok _ _ _ hcl]
+          simp [boxedRV, RV.wellFlagged, hki, iface_not_direct out hki]
+        · rw [if_neg himp] at hcl; exact e2e_not_unmodelled_of_error _ _ _ hcl
+      · rw [if_neg hki] at hcl
+        by_cases hs : t.size = out.size
+        · rw [if_neg (by simpa using hs)] at hcl
+          rw [e2e_unmodelled_of_ok _ _ _ hcl]
+          simp [asIsRV, RV.wellFlagged]
+        · rw [if_pos (by simpa using hs)] at hcl; exact e2e_not_unmodelled_of_error _ _ _ hcl
+
+/-- an untyped nil is never `unmodelled` -/
+theorem nil_never_unmodelled (out : Ty) : returnE2E K [none] [out] ≠ .callUnmodelled := by
+  have hcl := toValue_nil_classified out
+  by_cases h : out.kind ∈ K.nil
+  · rw [if_pos h] at hcl
+    rw [Ne, e2e_unmodelled_of_ok _ _ _ hcl, zeroRV_wellFlagged]; simp
+  · rw [if_neg h] at hcl; exact e2e_not_unmodelled_of_error _ _ _ hcl
+
+/-- **outside `CrossRep` every outcome is classified with its content**: a configuration-time panic (the reject
+    class), a call-time `MakeFunc` panic (same size, other non-assignable type — nothing delivered), or a delivered
+    value of the declared type whose content is the supplied payload (as is / retyped) or the payload boxed with
+    its dynamic type; results of size 0 carry no content. -/
+theorem outside_unmodelled_classified (t : Ty) (x : Val) (out : Ty) (h : CrossRep t out = false) :
+    (∃ e, returnE2E K [some (t, x)] [out] = .cfgPanic e) ∨
+    returnE2E K [some (t, x)] [out] = .callPanic ∨
+    (∃ v, returnE2E K [some (t, x)] [out] = .got [v] ∧ v.ty = out ∧
+        (out.size = 0 ∨ v.val = x ∨ v.val = .ifaceOf t x)) := by
+  have hu : returnE2E K [some (t, x)] [out] ≠ .callUnmodelled := by
+    intro hh; rw [(unmodelled_iff t x out).1 hh] at h; simp at h
+  have hsingle := returnE2E_single (some (t, x)) out
+  cases hr : returnE2E K [some (t, x)] [out] with
+  | cfgPanic e => exact Or.inl ⟨e, rfl⟩
+  | callPanic => exact Or.inr (Or.inl rfl)
+  | callUnmodelled => exact absurd hr hu
+  | cfgReturnsMismatch =>
+    rw [hr] at hsingle
+    split at hsingle
+    · simp at hsingle
+    · split at hsingle
+      · simp at hsingle
+      · split at hsingle <;> simp at hsingle
+  | got vs =>
+    rw [hr] at hsingle
+    have : ∃ v, vs = [v] := by
+      split at hsingle
+      · simp at hsingle
+      · split at hsingle
+        · simp at hsingle
+        · split at hsingle
+          · simp at hsingle
+          · rename_i a _; exact ⟨a, by simpa using hsingle⟩
+    obtain ⟨v, hv⟩ := this
+    subst hv
+    have hd := delivered_typed_and_unaltered (some (t, x)) out v hr
+    exact Or.inr (Or.inr ⟨v, rfl, hd.1, hd.2⟩)
+
+example : CrossRep (.prim .uintptr) (.ptr tS1) = true ∧ CrossRep tS1b tS1 = false ∧ CrossRep (.ptr tS1b) (.ptr tS1) = false ∧
+    CrossRep tS2 tS1 = false := by decide
+
+/-- for an accepted value, `CrossRep` is exactly "the stored Value's flag word disagrees with its type word" -/
+theorem crossRep_iff_misflagged (t : Ty) (x : Val) (out : Ty) (v : RV) (h : toValue K (some (t, x)) out = .ok v) :
+    CrossRep t out = true ↔ v.wellFlagged = false := by
+  rw [← unmodelled_iff t x out, e2e_unmodelled_of_ok _ _ _ h]
+
+/-- the payload of an accepted value still has the shape its flag kind announces -/
+theorem toValue_keeps_kindOK (t : Ty) (x : Val) (out : Ty) (v : RV) (hx : x.kindOK t.kind = true)
+    (h : toValue K (some (t, x)) out = .ok v) : v.val.kindOK v.fk = true := by
+  rcases toValue_ok_payload (some (t, x)) out v h with hp | hp
+  · -- as is / retyped: flag kind is the supplied type's kind
+    rw [toValue_classified] at h
+    split at h
+    · split at h
+      · simp at h
+      · split at h
+        · simp at h
+        · simp only [Except.ok.injEq] at h; subst h; simpa [retypedRV] using hx
+    · split at h
+      · simp at h
+      · split at h
+        · exact absurd (by assumption) hp.1
+        · split at h
+          · simp at h
+          · simp only [Except.ok.injEq] at h; subst h; simpa [asIsRV] using hx
+  · rw [hp.2]; simp [Val.kindOK]
+
+/-- **`When.Eval` (V2I) answers `unmodelled` exactly on `CrossRep`** (for a payload of the supplied type's shape) -/
+theorem eval_unmodelled_iff (t : Ty) (x : Val) (out : Ty) (v : RV) (hx : x.kindOK t.kind = true)
+    (h : toValue K (some (t, x)) out = .ok v) :
+    v2i1 K v out = .error .unmodelled ↔ CrossRep t out = true := by
+  rw [crossRep_iff_misflagged t x out v h]
+  have hk := toValue_keeps_kindOK t x out v hx h
+  cases hw : v.wellFlagged
+  · simp [v2i1, hw]
+  · simp only [v2i1, hw, Bool.not_true, Bool.false_eq_true, if_false, isZeroRV, hk, Bool.and_self, if_true, Bool.true_eq_false, iff_false]
+    split
+    · cases isZeroVal v.val <;> simp
+    · simp
 
 end C09
